@@ -157,8 +157,11 @@ class StateMachineMatcher:
                         if suffix == "/":
                             remaining = [""]
 
+                    # Group names are numbered ("__werkzeug_10" follows
+                    # "__werkzeug_9"): shorter names sort first.
                     converter_groups = sorted(
-                        match.groupdict().items(), key=lambda entry: entry[0]
+                        match.groupdict().items(),
+                        key=lambda entry: (len(entry[0]), entry[0]),
                     )
                     groups = [
                         value
